@@ -19,13 +19,42 @@ CHECKS = {
     "C18": "linegrammar",
     "C10": "engine", "C11": "engine", "C12": "engine",
     "C06": "engine", "C07": "engine", "C08": "engine", "C09": "engine", "C13": "engine",
+    "C01": "engine", "C02": "engine", "C03": "engine", "C04": "engine", "C05": "engine", "C14": "engine", "C15": "engine",
+    "C41": "engine",
 }
 
 MC = "model_checking"
 EXP = "exploration"
 
 # id -> (level, technique, level text, level note, design ref)
+INTERP_TRUST = "Trusted: the harness-side observation (property descriptors on ast.Node flags, wrappers around PInterpreter.tick / _is_awaiting_threshold / _try_activate_node and Tracking._add_record_state, none of them in /repo), exact rational re-evaluation of clocks and conditions from the values every observer reads, virtual time. The monitor state is the implementation's flags; the clauses relate them to the program structure."
+
 CLAIMS = {
+    "C02": (MC, 'monitor InterpTrace.tla (TLC) on recorded interpreter micro-events of generated programs: order / once / parent / reset clauses',
+            "536+ generated programs (all bodies of <= 3 statements over Mark, UOD commands, Wait, thresholds, Block/End block, Watch, Alarm, Macro/Call macro with one level of nesting, plus 24 curated deeper ones) x input trajectories x pause/hold, cancel/force, inject, stop/restart schedules, plus the random engine corpus; every assignment to a node's started/completed flag and every run-log Started record is an event: a node starts only after its previous sibling completed (commands: was passed to the engine; conditions: registered) and its parent started, never twice per invocation, its state is reset only inside alarm and macro bodies, trailing blank/comment lines never complete, a UOD command is initialised once per invocation.",
+            INTERP_TRUST, "7 C02"),
+    "C03": (MC, 'monitor InterpTrace.tla: threshold and Wait clauses with exact clock arithmetic',
+            'Every evaluation of a threshold by the real interpreter is an event carrying the exact comparison of the scope clock it read (Block Time inside a block, else Scope Time, in the Base unit s/min/h) with the threshold: still waiting although reached and proceeding although not reached are violations; a node with a threshold starts only when reached or forced; the instruction after Wait: d starts >= d after the Wait began to execute and, over uninterrupted ticks, <= d rounded up to a tick plus one tick.',
+            INTERP_TRUST, "7 C03"),
+    "C04": (MC, 'monitor InterpTrace.tla: activation, body, cancel, block-end and re-arm clauses',
+            "Every condition evaluation is an event with the condition's exact truth on the tag value read: activation only when true or forced, a true evaluation activates, body lines start only under an activated parent, never under a cancelled condition or an ended block, an alarm that completed a run is registered again by the end of the tick.",
+            INTERP_TRUST, "7 C04"),
+    "C05": (MC, 'monitor InterpTrace.tla: lock chain, Block tag, End block / End blocks clauses',
+            'lock_acquired / block_ended assignments are events: a block is locked only when all locked blocks are its ancestors, End block ends exactly the innermost active block, End blocks ends all, a block completes only after it was ended, no registered Watch/Alarm survives the end of its block, at every tick end the Block tag names the innermost active block (none when no block is active or the run was stopped).',
+            INTERP_TRUST, "7 C05"),
+    "C14": (MC, 'monitor InterpTrace.tla: injection clauses',
+            'Snippets (Mark, UOD commands, Wait, blocks) injected at random ticks of generated runs: the injected root starts at the next interpreter tick, its lines and commands run once, the reported method state is identical before and after the request, an injected finite command keeps executing until it is finalised.',
+            INTERP_TRUST, "7 C14"),
+    "C15": (MC, 'monitor InterpTrace.tla: run-log clauses evaluated on Tracking.get_runlog() at every tick end of every run',
+            'ordered by start, distinct ids, no end before start, closed items have an end and offer neither cancel nor force, every completed method instruction has a completed item.',
+            INTERP_TRUST, "7 C15"),
+    "C41": (MC, 'monitor InterpTrace.tla: macro clauses',
+            'Programs with redefinition, nested, recursive and mutually recursive calls, calls from watches and blocks inside macros: a body invocation starts only for the definition registered last under that name, never while that macro has an invocation in progress, a call node is not re-entered; edits touching a started macro must be rejected.',
+            INTERP_TRUST, "7 C41"),
+    "C01": (MC, 'monitor InterpTrace.tla: live-edit clauses on the interpreter state before and after every edit request',
+            'Edit operations (append before the trailing blank line, change the last / first instruction line, insert a blank line) at random ticks of generated runs, up to several per run: an edit touching a started line is rejected and changes nothing, others are accepted, a live edit is merged (never replaces the interpreter), the flags of every node and the pending interrupts after the merge contain those before it, the reported method state contains what it contained before.',
+            INTERP_TRUST, "7 C01"),
+
     "C23": (MC, "TLA+ spec HwRecovery.tla checked by TLC; every edge of its state graph replayed on the real "
                 "ErrorRecoveryDecorator; recorded executions validated by HwRecoveryTrace.tla",
             "TLC checks the documented five-state protocol exhaustively for all call sequences up to the bound (quick 5, "
